@@ -314,12 +314,17 @@ def run(ctx):
             return rng.randrange(n)
         return mixed(n, cls)
 
+    def tol_tok(tol):
+        """the tolerance argument on the wire: `none` when omitted (the model resolves the default as
+        the code does), else its exact value"""
+        return "none" if tol is None else rat(F(tol))
+
     def rand_tol(cls):
         r = rng.random()
         if r < 0.3:
             return None
         if r < 0.5:
-            return 0.0
+            return rng.choice([0.0, 0])
         if r < 0.8:
             return rng.choice([0.25, 0.5, 1.0, 2.0, 4.0])
         return 1e-8 if cls == "f17" else 2.0 ** -20
@@ -662,7 +667,7 @@ def run(ctx):
                 rd = int(player.best_response(arg, tie_breaking="random", payoff_perturbation=pert, random_state=FixedDraw(k), **kw))
                 if sm != want[0] or rd != want[k]:
                     ctx.spec_fail("best_response-tiebreak", "smallest %d random(%d) %d among %s" % (sm, k, rd, want), dict(rp, tol=tol))
-                return ("br:%d:%s:%s:%s" % (i, acts_str(opps), rat(tolv), "none" if pert is None else rats(F(x) for x in pert.tolist())),
+                return ("br:%d:%s:%s:%s" % (i, acts_str(opps), tol_tok(tol), "none" if pert is None else rats(F(x) for x in pert.tolist())),
                         "i" + ints(brs), g, T, is_poly)
             own = rand_act(T.nums[i], cls)
             if near(ev, tolv):
@@ -680,7 +685,7 @@ def run(ctx):
             ctx.count("isbr:%s" % r)
             if m == 0:
                 ctx.count("isbr:boundary-exact")
-            return ("isbr:%d:%s:%s:%s" % (i, act_str(own), acts_str(opps), rat(tolv)), "b%d" % r, g, T, is_poly)
+            return ("isbr:%d:%s:%s:%s" % (i, act_str(own), acts_str(opps), tol_tok(tol)), "b%d" % r, g, T, is_poly)
 
         if name == "nash":
             prof = [rand_act(n, cls, 0.65) for n in T.nums]
@@ -721,13 +726,13 @@ def run(ctx):
                 ctx.spec_fail("is_nash", "is_nash=%s, definition %s" % (r, ok),
                               dict(replay, profile=[act_str(a) for a in prof], tol=tol))
             ctx.count("nash:%s" % r)
-            return "nash:%s:%s" % (acts_str(prof), rat(tolv)), "b%d" % r, g, T, is_poly
+            return "nash:%s:%s" % (acts_str(prof), tol_tok(tol)), "b%d" % r, g, T, is_poly
 
         if name == "dom":
             i = rng.randrange(N)
             n = T.nums[i]
             a = rng.randrange(n)
-            tol = rng.choice([None, None, 0.25, 1.0, 2.0 ** -20])
+            tol = rng.choice([None, None, 0.25, 1.0, 2.0 ** -20, 0, 0.0, 1e-8, 0.5])
             tolv = F(1e-8) if tol is None else F(tol)
             others = [(i + 1 + k) % N for k in range(N - 1)]
             cols = list(itertools.product(*[range(T.nums[j]) for j in others]))
@@ -748,12 +753,12 @@ def run(ctx):
                 if r != want:
                     ctx.spec_fail("is_dominated", "1-player is_dominated=%s, definition %s" % (r, want), rp)
                 ctx.count("dom0:%s" % r)
-                return "dom0:%d:%d:%s" % (i, a, rat(tolv)), "b%d" % r, g, T, is_poly
+                return "dom0:%d:%d:%s" % (i, a, tol_tok(tol)), "b%d" % r, g, T, is_poly
             if n == 1:
                 r = bool(player.is_dominated(a, **kw))
                 if r:
                     ctx.spec_fail("is_dominated", "only action reported dominated", rp)
-                return "dompure:%d:%d:%s" % (i, a, rat(tolv)), "b%d" % r, g, T, is_poly
+                return "dompure:%d:%d:%s" % (i, a, tol_tok(tol)), "b%d" % r, g, T, is_poly
             rows = [b for b in range(n) if b != a]
             if len(cols) > 30:
                 return None
@@ -786,8 +791,8 @@ def run(ctx):
             if r and not pure_dom:
                 ctx.count("dom:mixed-only")
             if rng.random() < 0.5:
-                return "dompure:%d:%d:%s" % (i, a, rat(tolv)), "b%d" % pure_dom, g, T, is_poly
-            return ("domcert:%d:%d:%s:%s:%s:%s" % (i, a, rat(tolv), rats(x), rats(y), rat(v)), "b%d" % r, g, T, is_poly)
+                return "dompure:%d:%d:%s" % (i, a, tol_tok(tol)), "b%d" % pure_dom, g, T, is_poly
+            return ("domcert:%d:%d:%s:%s:%s:%s" % (i, a, tol_tok(tol), rats(x), rats(y), rat(v)), "b%d" % r, g, T, is_poly)
 
         cur["call"] = name
         if name == "profarr":
@@ -1050,6 +1055,198 @@ def run(ctx):
 
     for _ in range(ctx.n(2000, 20000)):
         history()
+
+    # ---- explicit tolerances x tiny margins ------------------------------------------------------------------------
+    # A game in which player i's action b ("twin") pays exactly a's payoff + m at every opponent profile (all
+    # payoffs dyadic, so every comparison the code makes is exact or far from its rounding error), every
+    # tol-taking call with every kind of tolerance argument, margins just below / at / just above it.
+    TOLS = [None, 0, 0.0, 2.0 ** -40, 1e-12, 1e-8, 1e-6, 0.5]
+    AROUND = [2.0 ** -e for e in range(26, 32)]          # 2^-31 .. 2^-26, around the default 1e-8
+
+    def margins_for(t):
+        t = float(t)
+        ms = list(AROUND) + [0.0]
+        if t == 0:
+            ms += [2.0 ** -40, 2.0 ** -20]
+        elif t == 2.0 ** -40:
+            ms += [2.0 ** -41, 2.0 ** -40, 2.0 ** -39, 3 * 2.0 ** -41]
+        elif t == 1e-12:
+            ms += [2.0 ** -40, 2.0 ** -39]
+        elif t == 1e-8:
+            ms += [2.0 ** -27, 2.0 ** -26, 2.0 ** -27, 2.0 ** -26]
+        elif t == 1e-6:
+            ms += [2.0 ** -20, 2.0 ** -19, 2.0 ** -20, 2.0 ** -19]
+        elif t == 0.5:
+            ms += [0.5 - 2.0 ** -30, 0.5, 0.5 + 2.0 ** -30, 0.5, 0.5 - 2.0 ** -30]
+        return ms
+
+    def tol_history():
+        N = rng.choice([1, 2, 2, 3, 3, 4])
+        while True:
+            nums = tuple(rng.randint(1, 3) for _ in range(N))
+            i = rng.randrange(N)
+            if nums[i] >= 2:
+                break
+        others = [(i + 1 + k) % N for k in range(N - 1)]
+        tol = rng.choice(TOLS)
+        t = F(1e-8) if tol is None else F(tol)
+        m = rng.choice(margins_for(t))
+        a, b = rng.sample(range(nums[i]), 2)
+        const_others = rng.random() < 0.6      # the other players are indifferent: is_nash hinges on player i alone
+        u = {}
+        profs = list(itertools.product(*[range(n) for n in nums]))
+        oprofs = list(itertools.product(*[range(nums[j]) for j in others]))
+        base = {r: rng.randint(-36, 36) / 4.0 for r in oprofs}
+        special = {c: rng.choice(oprofs) for c in range(nums[i])}
+        mode = {c: rng.choice(["below", "somewhere"]) if len(oprofs) >= 2 else "below" for c in range(nums[i])}
+        for p in profs:
+            r = tuple(p[j] for j in others)
+            v = []
+            for j in range(N):
+                if j != i:
+                    v.append(0.0 if const_others else rng.randint(-8, 8) / 4.0)
+                elif p[i] == a:
+                    v.append(base[r])
+                elif p[i] == b:
+                    v.append(base[r] + m)
+                elif mode[p[i]] == "below":
+                    v.append(base[r] - 1.0 - 0.25 * p[i])
+                else:       # better than a at one opponent profile, clearly worse elsewhere
+                    v.append(base[r] + 2.0 if r == special[p[i]] else base[r] - 3.0)
+            u[p] = tuple(v)
+        T = Truth(nums, u)
+        D = np.empty(nums + (N,))
+        for p, v in u.items():
+            D[p] = v
+        cur["call"] = {"ctor": "prof", "payoff_profile_array": D.tolist()}
+        rep_ = {"ctor": "prof", "payoff_profile_array": D.tolist(), "twin": {"player": i, "a": a, "b": b, "margin": m}, "tol": repr(tol)}
+        try:
+            g = NormalFormGame(D)
+        except Exception as e:
+            ctx.spec_fail("exception:constructor", "constructor raised %s: %s" % (type(e).__name__, e), rep_)
+            return
+        ctor = "ctor=prof shape=%s data=%s" % (ints(D.shape), rats(F(x) for x in D.ravel().tolist()))
+        st = state_str(g)
+        toks, outs = [], ["-#" + st]
+        kw = {} if tol is None else {"tol": tol}
+        player = g.players[i]
+        ctx.count("tol:arg=%r" % (tol,))
+        rel = "tie" if F(m) == t else ("below" if F(m) < t else "above")
+        ctx.count("tol:margin-%s" % rel)
+        ctx.count("tol:N=%d" % N)
+
+        def ui(c, r):
+            full = [0] * N
+            full[i] = c
+            for j, x in zip(others, r):
+                full[j] = x
+            return F(u[tuple(full)][i])
+
+        def emit(tok, out):
+            toks.append(tok)
+            outs.append(out + "#" + state_str(g))
+
+        def guarded(what, fn):
+            try:
+                return True, fn()
+            except Exception as e:
+                ctx.spec_fail("exception:" + what, "%s raised %s: %s" % (what, type(e).__name__, e), dict(rep_, call=what))
+                return False, None
+
+        # -- is_dominated / dominated_actions (N = 1 branch, LP branch, method option) ---------------------------
+        def exact_dom(c):
+            """(dominated?, certificate or None, decidable in floating point?)"""
+            rows = [x for x in range(nums[i]) if x != c]
+            if N == 1:
+                return max(ui(x, ()) for x in rows + [c]) > ui(c, ()) + t, None, True
+            Dm = [[ui(x, r) - ui(c, r) for r in oprofs] for x in rows]
+            sol = game_value(Dm)
+            if sol is None:
+                return None, None, False
+            v, x, y = sol
+            return v > t, (x, y, v), abs(v - t) > Fraction(1, 10 ** 11) * 16
+        want, cert, ok_fp = exact_dom(a)
+        if want is not None and ok_fp:
+            okc, r = guarded("is_dominated", lambda: bool(player.is_dominated(a, **kw)))
+            if okc:
+                if r != want:
+                    ctx.spec_fail("is_dominated-tol", "is_dominated(%d, tol=%r)=%s on a game where action %d beats it by exactly %r at "
+                                  "every profile; definition (value > tol): %s" % (a, tol, r, b, m, want), dict(rep_, action=a))
+                ctx.count("tol:dom:%s" % r)
+                if N == 1:
+                    emit("dom0:%d:%d:%s" % (i, a, tol_tok(tol)), "b%d" % r)
+                else:
+                    x, y, v = cert
+                    emit("domcert:%d:%d:%s:%s:%s:%s" % (i, a, tol_tok(tol), rats(x), rats(y), rat(v)), "b%d" % r)
+                    pure_dom = any(all(ui(c, q) > ui(a, q) + t for q in oprofs) for c in range(nums[i]) if c != a)
+                    emit("dompure:%d:%d:%s" % (i, a, tol_tok(tol)), "b%d" % pure_dom)
+            # dominated_actions forwards tol: compare the whole list where every action is decidable
+            full = [exact_dom(c) for c in range(nums[i])]
+            if all(w is not None and o for w, _, o in full):
+                okc, da = guarded("dominated_actions", lambda: [int(x) for x in player.dominated_actions(**kw)])
+                wl = [c for c in range(nums[i]) if full[c][0]]
+                if okc and da != wl:
+                    ctx.spec_fail("dominated_actions-tol", "dominated_actions(tol=%r)=%s, definition %s" % (tol, da, wl), rep_)
+            # linprog path: the solver's own tolerances are ~1e-9, so only margins it can resolve
+            if N >= 2 and abs((cert[2] if cert else 0) - t) >= Fraction(1, 2 ** 21):
+                okc, r2 = guarded("is_dominated(method)", lambda: bool(player.is_dominated(a, method="highs", **kw)))
+                if okc and r2 != want:
+                    ctx.spec_fail("is_dominated-linprog-tol", "is_dominated(%d, tol=%r, method='highs')=%s, definition %s" % (a, tol, r2, want), rep_)
+                ctx.count("tol:dom:linprog")
+
+        # -- best_response / is_best_response against a pure opponent profile --------------------------------------
+        r0 = rng.choice(oprofs)
+        opps = list(r0)
+        arg = as_arg(N, opps)
+        ev = [ui(c, r0) for c in range(nums[i])]
+        okc, brs = guarded("best_response", lambda: [int(x) for x in player.best_response(arg, tie_breaking=False, **kw)])
+        if okc:
+            wl = [c for c, vc in enumerate(ev) if vc >= max(ev) - t]
+            if brs != wl:
+                ctx.spec_fail("best_response-tol", "best_response(tol=%r, tie_breaking=False)=%s, definition %s (payoffs %s)" % (
+                    tol, brs, wl, [float(x) for x in ev]), dict(rep_, opponents=opps))
+            emit("br:%d:%s:%s:none" % (i, acts_str(opps), tol_tok(tol)), "i" + ints(brs))
+        for own in (a, b):
+            okc, r = guarded("is_best_response", lambda: bool(player.is_best_response(own, arg, **kw)))
+            if okc:
+                w = ev[own] >= max(ev) - t
+                if r != w:
+                    ctx.spec_fail("is_best_response-tol", "is_best_response(%d, tol=%r)=%s, definition %s" % (own, tol, r, w),
+                                  dict(rep_, opponents=opps))
+                emit("isbr:%d:p%d:%s:%s" % (i, own, acts_str(opps), tol_tok(tol)), "b%d" % r)
+        # a mixed own action between a and b (dyadic weights): its payoff lies m/2 below b's
+        if True:
+            xmix = [0.0] * nums[i]
+            xmix[a], xmix[b] = 0.5, 0.5
+            okc, r = guarded("is_best_response", lambda: bool(player.is_best_response(np.array(xmix), arg, **kw)))
+            if okc:
+                w = (ev[a] + ev[b]) / 2 >= max(ev) - t
+                if r != w:
+                    ctx.spec_fail("is_best_response-tol", "is_best_response(mixed a/b, tol=%r)=%s, definition %s" % (tol, r, w),
+                                  dict(rep_, opponents=opps))
+                emit("isbr:%d:m%s:%s:%s" % (i, rats(F(x) for x in xmix), acts_str(opps), tol_tok(tol)), "b%d" % r)
+
+        # -- is_nash on the profile where player i plays a ------------------------------------------------------------
+        prof = [0] * N
+        prof[i] = a
+        for j, x in zip(others, r0):
+            prof[j] = x
+        okn = True
+        for j in range(N):
+            evj = T.expect_vector(j, [prof[(j + 1 + k) % N] for k in range(N - 1)])
+            okn = okn and evj[prof[j]] >= max(evj) - t
+        okc, r = guarded("is_nash", lambda: bool(g.is_nash(tuple(prof), **kw)))
+        if okc:
+            if r != okn:
+                ctx.spec_fail("is_nash-tol", "is_nash(%s, tol=%r)=%s, definition %s" % (prof, tol, r, okn), dict(rep_, profile=prof))
+            ctx.count("tol:nash:%s" % r)
+            emit("nash:%s:%s" % (acts_str(prof), tol_tok(tol)), "b%d" % r)
+        check_views(ctx, g, T, "after the tolerance calls", rep_)
+        cases.append(Case("C14 run %s ops=%s" % (ctor, "|".join(toks) if toks else "-"), "|".join(outs),
+                          nontrivial=True, tag="tolerance", meta=rep_))
+
+    for _ in range(ctx.n(700, 6000)):
+        tol_history()
 
     # ---- every pair / triple of state-changing and observing calls on small games -------------------------
     seqs = list(itertools.product(["set", "del", "gam", "reprof", "logit", "pv", "nash"], repeat=2))
